@@ -114,6 +114,8 @@ type Net struct {
 	Tap        func(ev TapEvent)
 	// RefuseDial, if set, decides whether a Dial fails (connect refusal / timeout faults).
 	RefuseDial func(fromNode int, addr string) bool
+	// OnDial, if set, sees both ends of every new connection (the harness plans cuts there).
+	OnDial func(dialer, acceptor *SimConn)
 	Stats      struct {
 		Dials, Refused, Resets, ShortReads, Writes, Bytes, PartitionDrops, Backpressure int
 	}
@@ -271,6 +273,9 @@ func DialTimeout(network, address string, d time.Duration) (net.Conn, error) {
 	sv := &SimConn{ID: n.nextID, Side: 1, Node: l.Node, in: p2, out: p1, local: ra, remote: la}
 	cl.Peer, sv.Peer = sv, cl
 	n.Conns = append(n.Conns, cl, sv)
+	if n.OnDial != nil {
+		n.OnDial(cl, sv)
+	}
 	l.queue = append(l.queue, sv)
 	l.wake()
 	return cl, nil
